@@ -253,42 +253,45 @@ def r9_3(ctx):
                     alts = suf[1].kids if suf[1].kind == "phi" else [suf[1]]
                     vals = sorted(peel(a).a.as_str() for a in alts if peel(a).kind == "const")
                     ctx.check(vals == ["", " (no-eol)"], "no-eol-literals", g.loc(bb), "the suffix is \"\" or \" (no-eol)\"", "suffix alternatives are %s" % vals)
-    # ` (no-eol)` exactly on the !ends_with(b"\n") edge
-    found = False
+    # ` (no-eol)` exactly when the line does not end in "\n" (decided by hypothesis on the result of ends_with(b"\n"): whether the test is
+    # branched on directly or folded into a bool with `&&` / `||` / `!` does not matter)
+    from ..cfgq import promoted_tree
+    from ..facts import ConstVal, Node
+    nl_calls, esc_calls = [], []
     for bb, t in g.calls():
-        if mname(t) in ("slice::ends_with", "Vec::ends_with") and bb in excl("UnexpectedLines"):
+        m = mname(t)
+        if m in ("slice::ends_with", "Vec::ends_with", "str::ends_with", "String::ends_with") and bb in excl("UnexpectedLines"):
             pat = peel(o.operand(t["args"][1]))
-            be = bool_edges(g, t["target"])
-            if be is None:
-                continue
-            tt, tf = be
-            found = True
             pb = pat.a.as_bytes() if pat.kind == "const" else None
             if pb is None and pat.kind == "const":
-                from ..cfgq import promoted_tree
                 pt = promoted_tree(prog, g, pat.a)
                 if pt is not None and peel(pt).kind == "const":
                     pb = peel(pt).a.as_bytes()
-            # blocks assigning the two suffix literals
-            lits = {}
-            for bi, blk in enumerate(g.blocks):
-                if bi not in excl("UnexpectedLines"):
-                    continue
-                for st in blk["stmts"]:
-                    if st["k"] == "assign" and st["rv"]["k"] == "use" and "const" in st["rv"]["op"]:
-                        from ..facts import ConstVal, Node
-                        v = const_str_of(prog, g, Node("const", ConstVal(st["rv"]["op"]["const"])))
-                        if v in ("", " (no-eol)"):
-                            lits.setdefault(v, []).append(bi)
-            rt = g.reachable(tt, removed_edges=back)
-            rf = g.reachable(tf, removed_edges=back)
-            ne = lits.get(" (no-eol)", [])
-            em = lits.get("", [])
-            ok = pb == b"\n" and len(ne) == 1 and ne[0] in rf and ne[0] not in rt and any(e in rt for e in em)
-            ctx.check(ok, "no-eol-edge", g.loc(bb),
-                      "` (no-eol)` is appended only on the `!line.ends_with(b\"\\n\")` edge; a terminated line always gets the empty suffix",
-                      "ends_with(%r): ` (no-eol)` assigned in blocks %s (reachable from the true edge: %s), empty suffix in %s" % (pb, ne, [x for x in ne if x in rt], em))
-    ctx.check(found, "no-eol-test", g.where(), "the unexpected-lines arm tests ends_with(b\"\\n\")")
+            ps = const_str_of(prog, g, pat)
+            if pb == b"\n" or ps == "\n":
+                nl_calls.append(bb)
+            elif ps == " (escaped)":
+                esc_calls.append(bb)
+    lits = {}
+    for bi, blk in enumerate(g.blocks):
+        if bi not in excl("UnexpectedLines"):
+            continue
+        for st in blk["stmts"]:
+            if st["k"] == "assign" and st["rv"]["k"] == "use" and "const" in st["rv"]["op"]:
+                v = const_str_of(prog, g, Node("const", ConstVal(st["rv"]["op"]["const"])))
+                if v in ("", " (no-eol)"):
+                    lits.setdefault(v, []).append(bi)
+    ne = lits.get(" (no-eol)", [])
+    em = lits.get("", [])
+    if nl_calls:
+        with_nl = set(explore(g, 0, assume={b_: True for b_ in nl_calls}).keys())
+        without = set(explore(g, 0, assume=dict([(b_, False) for b_ in nl_calls] + [(b_, False) for b_ in esc_calls])).keys())
+        ok = len(ne) == 1 and ne[0] not in with_nl and ne[0] in without and any(e in with_nl for e in em)
+        ctx.check(ok, "no-eol-edge", g.loc(nl_calls[0]),
+                  "` (no-eol)` is appended only when `line.ends_with(b\"\\n\")` is false; a terminated line always gets the empty suffix",
+                  "` (no-eol)` assigned in blocks %s (reachable although the line ends in \\n: %s; reachable for an unterminated plain line: %s), empty suffix in %s"
+                  % (ne, [x for x in ne if x in with_nl], [x for x in ne if x in without], em))
+    ctx.check(bool(nl_calls), "no-eol-test", g.where(), "the unexpected-lines arm tests ends_with(b\"\\n\")")
 
 
 def _assigned_str(f, o, target, edge):
@@ -483,22 +486,14 @@ def r9_6(ctx):
                     from ..facts import ConstVal, Node
                     if const_str_of(prog, b, Node("const", ConstVal(st["rv"]["op"]["const"]))) == " (no-eol)":
                         lit_blocks.append((bi, si))
+        esc_calls = []
+        for cb_, ct_ in b.calls():
+            if mname(ct_) in ("str::ends_with", "String::ends_with") and len(ct_["args"]) > 1 and const_str_of(prog, b, o.operand(ct_["args"][1])) == " (escaped)":
+                esc_calls.append(cb_)
         for bi, si in lit_blocks:
             n += 1
-            back = b.back_edges()
-            guarded = False
-            for sb, st in switches(b):
-                be = bool_edges(b, sb)
-                if be is None:
-                    continue
-                tree = cond_tree(b, sb, o)
-                found = [x for x in tree.walk() if x.kind == "call" and method_name(x.a) in ("str::ends_with", "String::ends_with") and len(x.kids) > 1
-                         and const_str_of(prog, b, x.kids[1]) == " (escaped)"]
-                if not found:
-                    continue
-                reach = [bi in b.reachable(s2, removed_edges=back) or s2 == bi for s2 in b.succ(sb)]
-                if any(reach) and not all(reach):
-                    guarded = True
+            # hypothesis: the rendering ends in ` (escaped)` -> the ` (no-eol)` literal must be unreachable (whatever the shape of the condition)
+            guarded = bool(esc_calls) and bi not in explore(b, 0, assume={c_: True for c_ in esc_calls}) and bi in explore(b, 0)
             # `a && !b && c` lowers to nested switches: the literal block is control dependent on each of them
             fn = b.name if b.npath.startswith("<") else b.npath.split("::")[-1]
             ctx.check(guarded, "no-eol-after-escaped:%s" % fn, stmt_loc(b, bi, si),
